@@ -205,6 +205,17 @@ func (prop) Run(line string) core.Outcome {
 			return core.Outcome{Impl: "bad-op"}
 		}
 		return runPath(line, l, p, e)
+	case f[0] == "pathpair" && len(f) == 7:
+		l, e0 := parseList(f[2])
+		var v [4]string
+		var err error
+		for i := 0; i < 4 && err == nil; i++ {
+			v[i], err = core.UnHex(f[3+i])
+		}
+		if e0 != nil || err != nil {
+			return core.Outcome{Impl: "bad-op"}
+		}
+		return runPathPair(f[1], l, v[0], v[1], v[2], v[3])
 	case f[0] == "pathre" && len(f) == 4:
 		lit, e1 := core.UnHex(f[2])
 		p, e2 := core.UnHex(f[3])
@@ -823,6 +834,59 @@ func runPathRE(line, kind, lit, p string) core.Outcome {
 				}
 			}
 		}
+	}
+	return o
+}
+
+// squeeze merges every run of slashes into one.
+func squeeze(s string) string {
+	var sb strings.Builder
+	for i := 0; i < len(s); i++ {
+		if s[i] == '/' && i+1 < len(s) && s[i+1] == '/' {
+			continue
+		}
+		sb.WriteByte(s[i])
+	}
+	return sb.String()
+}
+
+// runPathPair: two explicit spellings of one request; kind names what they differ by.
+func runPathPair(kind string, l []string, p1, e1, p2, e2 string) core.Outcome {
+	if !(inDomainPath(l, p1, e1) && inDomainPath(l, p2, e2)) {
+		return core.Outcome{Impl: "ood", Tags: []string{"pathpair:ood", "trivial"}}
+	}
+	u1, u2 := &url.URL{Path: p1, RawPath: e1}, &url.URL{Path: p2, RawPath: e2}
+	if u1.EscapedPath() != e1 || u2.EscapedPath() != e2 {
+		return core.Outcome{Impl: "bad-op", Tags: []string{"pathpair:inconsistent-escaped", "trivial"}}
+	}
+	related := false
+	switch kind {
+	case "case":
+		related = asciiLower(p1) == asciiLower(p2) && asciiLower(e1) == asciiLower(e2)
+	case "slash":
+		related = squeeze(p1) == squeeze(p2) && squeeze(e1) == squeeze(e2)
+	case "pct":
+		related = p1 == p2
+	}
+	if !related {
+		return core.Outcome{Impl: "bad-op", Tags: []string{"pathpair:unrelated", "trivial"}}
+	}
+	r1, r2 := implPathURL(l, u1), implPathURL(l, u2)
+	o := core.Outcome{Impl: r1 + " " + r2, Tags: []string{"pathpair", "pathpair:" + kind}}
+	if r1 == r2 {
+		return o
+	}
+	o.Tags = append(o.Tags, "pathpair:differs")
+	pct, dbl := hasPct(l), hasDoubleSlash(l)
+	what := fmt.Sprintf("patterns %q: %q (raw %q) -> %s but %q (raw %q) -> %s", l, p1, e1, r1, p2, e2, r2)
+	switch {
+	case kind == "case" && pct:
+		o.Failures = append(o.Failures, core.Failure{Class: "path-case:escaped-pattern", What: what})
+	case kind == "slash" && dbl, kind == "pct" && pct:
+		// documented intent of a pattern with "//" resp. "%": not a failure
+		o.Tags = append(o.Tags, "pathpair:documented-mode")
+	default:
+		o.Failures = append(o.Failures, core.Failure{Class: "path-pair:" + kind, What: what})
 	}
 	return o
 }
